@@ -90,6 +90,8 @@ UNARY = {
     "logical_not": lambda x: not x, "invert": lambda x: not x,
     "negative": lambda x: -x, "sign": lambda x: (x > 0) - (x < 0),
     "float": float, "bool": bool, "square": lambda x: x * x,
+    "sqrt": lambda x: math.sqrt(x) if x >= 0 else float("nan"),
+    "int": int,
 }
 CMP = {ast.Lt: lambda a, b: a < b, ast.LtE: lambda a, b: a <= b,
        ast.Gt: lambda a, b: a > b, ast.GtE: lambda a, b: a >= b,
@@ -148,6 +150,22 @@ def ev(e, env):
         return res
     if isinstance(e, ast.IfExp):
         return ev(e.body, env) if ev(e.test, env) else ev(e.orelse, env)
+    if isinstance(e, (ast.List, ast.Tuple)):
+        return [ev(x, env) for x in e.elts]
+    if isinstance(e, (ast.ListComp, ast.GeneratorExp)) and \
+            len(e.generators) == 1 and \
+            isinstance(e.generators[0].target, ast.Name):
+        gen = e.generators[0]
+        seq = ev(gen.iter, env)
+        if not isinstance(seq, list):
+            raise Unknown("iteration over a scalar")
+        out = []
+        for v in seq:
+            env2 = dict(env)
+            env2[gen.target.id] = v
+            if all(ev(c, env2) for c in gen.ifs):
+                out.append(ev(e.elt, env2))
+        return out
     if isinstance(e, ast.Call):
         fn = norm(e.func)
         short = fn.split(".")[-1]
@@ -166,3 +184,34 @@ def ev(e, env):
             return _ew(max if short == "maximum" else min, *args)
         raise Unknown(fn)
     raise Unknown(k)
+
+
+def run(stmts, env):
+    """straight-line interpretation of Assign / AugAssign / If / Expr
+    statements over env (mutated and returned); stores into attribute chains
+    and names are recorded under their normalised text"""
+    for st in stmts:
+        if isinstance(st, ast.Assign):
+            v = ev(st.value, env)
+            for t in st.targets:
+                if isinstance(t, (ast.Name, ast.Attribute)):
+                    env[norm(t)] = v
+                elif isinstance(t, (ast.Tuple, ast.List)) and \
+                        isinstance(v, list) and len(v) == len(t.elts):
+                    for tt, vv in zip(t.elts, v):
+                        env[norm(tt)] = vv
+                else:
+                    raise Unknown("store " + norm(t))
+        elif isinstance(st, ast.AugAssign):
+            if type(st.op) not in BIN:
+                raise Unknown(norm(st))
+            cur = ev(st.target, env)
+            env[norm(st.target)] = _ew(BIN[type(st.op)], cur,
+                                       ev(st.value, env))
+        elif isinstance(st, ast.If):
+            run(st.body if ev(st.test, env) else st.orelse, env)
+        elif isinstance(st, (ast.Expr, ast.Pass)):
+            continue
+        else:
+            raise Unknown(type(st).__name__)
+    return env
